@@ -29,6 +29,8 @@ type elObj struct {
 	promotes, demotes int
 	healthTick int
 	lastAckRev uint64
+	inDemote   int
+	termToken  string
 }
 
 // Inst is one participant (InstanceID) of the plan.
@@ -52,6 +54,10 @@ type Inst struct {
 	healthPos   int
 	startedAt   time.Duration
 	watchOK     bool
+	parkedYields int
+	inflightOps  int
+	apiBusy      int
+	watchOKAt    time.Duration
 }
 
 func (in *Inst) key() string { return in.cfg.Group }
@@ -131,6 +137,7 @@ func (m *obsMetrics) SetIsLeader(v float64, _ prometheus.Labels) {
 			}
 		}
 		if val {
+			o.termToken = tok
 			o.terms++
 			d.stats.Terms++
 			if !o.in.running {
@@ -180,8 +187,9 @@ func (l *obsLogger) rec(msg string, fields []zap.Field) {
 	}
 	d.mu.Lock()
 	d.h.Logs = append(d.h.Logs, &LogEvt{Inst: o.in.idx, Gen: o.gen, Msg: msg + extra, T: d.now(), Step: d.step})
-	if msg == "watch_started" {
+	if msg == "watch_started" && o == o.in.cur {
 		o.in.watchOK = true
+		o.in.watchOKAt = d.now()
 	}
 	d.mu.Unlock()
 }
@@ -263,6 +271,7 @@ func (o *elObj) onDemote() {
 	stack := leaderFrames(2, 3)
 	d.mu.Lock()
 	o.demotes++
+	o.inDemote++
 	d.h.Cbs = append(d.h.Cbs, &CbEvt{Inst: in.idx, Gen: o.gen, Kind: "demote_enter", Token: stack, Term: o.demotes, T: d.now(), Step: d.step})
 	d.logf("cb i%d.%d demote_enter n=%d by=%s", in.idx, o.gen, o.demotes, stack)
 	d.mu.Unlock()
@@ -270,6 +279,7 @@ func (o *elObj) onDemote() {
 		time.Sleep(in.cfg.DemoteDur)
 	}
 	d.mu.Lock()
+	o.inDemote--
 	d.h.Cbs = append(d.h.Cbs, &CbEvt{Inst: in.idx, Gen: o.gen, Kind: "demote_exit", Term: o.demotes, T: d.now(), Step: d.step})
 	d.mu.Unlock()
 }
@@ -336,6 +346,12 @@ func (d *Driver) doAction(a *Action) {
 		d.notify(o, a.Kind)
 		return
 	case ARestart, AStart:
+		if in.inStopCall > 0 {
+			// Start racing a stop call of the same instance is API misuse the properties do not cover
+			d.probe("start_during_stop_skipped")
+			d.mu.Unlock()
+			return
+		}
 		if a.Kind == ARestart || in.cur == nil {
 			if in.cur != nil && in.running {
 				// restart of a running object = crash of the old one + new object
@@ -362,11 +378,15 @@ func (d *Driver) doAction(a *Action) {
 	d.apiSeq++
 	ev := &ApiEvt{ID: d.apiSeq, Inst: in.idx, Gen: o.gen, Kind: a.Kind, Act: a, TInv: now, TRet: -1, SInv: d.step}
 	d.h.Apis = append(d.h.Apis, ev)
+	in.apiBusy++
 	switch a.Kind {
 	case AStop, AStopCtx:
 		in.inStopCall++
 		in.running = false
 		ev.WasLeaderAtInv = o.el.IsLeader()
+		if lv := d.store.Live(in.cfg.Group, now); lv != nil && lv.Writer == in.idx && lv.Gen == o.gen {
+			ev.OwnerAtInv = true
+		}
 	case AValidate, AValidateOD:
 		ev.LeaderAtInv = o.el.IsLeader()
 		ev.TokenAtInv = o.el.Token()
@@ -381,6 +401,7 @@ func (d *Driver) apiCall(in *Inst, o *elObj, a *Action, ev *ApiEvt) {
 			d.mu.Lock()
 			ev.Panic = fmt.Sprint(r)
 			ev.TRet = d.now()
+			in.apiBusy--
 			d.h.violate("C09", "panic-in-api/"+a.Kind, fmt.Sprintf("%v: %v", a.Kind, r), d.now(), d.step)
 			d.mu.Unlock()
 			d.signal()
@@ -447,6 +468,7 @@ func (d *Driver) apiCall(in *Inst, o *elObj, a *Action, ev *ApiEvt) {
 	ev.Err, ev.Bool = err, b
 	ev.TRet = d.now()
 	ev.SRet = d.step
+	in.apiBusy--
 	switch a.Kind {
 	case AStop, AStopCtx:
 		in.inStopCall--
